@@ -53,6 +53,7 @@ type verifJobOpts struct {
 	noRunning     bool // refs never carry a running timestamp
 	preMarked     bool // an unfinished ref may already carry DeletedStatus=Killed (set before a delete)
 	twoLive       bool // exactly two unfinished refs, one per parallel index (needs parallel: 2)
+	killingRefs   bool // an unfinished ref may be recorded in state Killing (its task is being deleted)
 }
 
 func (o verifJobOpts) instant(name string, k int) time.Time {
@@ -205,6 +206,9 @@ func verifDrawJobState(o verifJobOpts) *verifJob {
 			st := ref.Status
 			ref.DeletedStatus = &st
 			r.hasDeleted = true
+		}
+		if o.killingRefs && !r.hasFinished && vz.Bool("ref.recordedKilling") {
+			ref.Status.State = execution.TaskKilling
 		}
 		if o.preMarked && !r.hasFinished && vz.Bool("ref.preMarkedKilled") {
 			ref.DeletedStatus = &execution.TaskStatus{State: execution.TaskTerminated, Result: execution.TaskKilled}
